@@ -2,7 +2,7 @@
    Only statements, each closed by [exact] and followed by Print Assumptions.
    [Repaired] = the code with fixes/C08-*.patch applied (what the correspondence ties the model to);
    [Old] = the tree as shipped, kept for the refutations that document the defects.                                  *)
-From GV Require Import Prelude.Base Model.Codec Model.RefMap Proofs.CodecProofs Proofs.RefMapProofs.
+From GV Require Import Prelude.Base Model.Codec Model.RefMap Model.JsonMeta Proofs.CodecProofs Proofs.RefMapProofs Proofs.JsonMetaProofs.
 
 Local Open Scope Z_scope.
 
@@ -248,14 +248,94 @@ Proof. exact text_bytes_readable_repaired. Qed.
 Print Assumptions C08_text_bytes_readable.
 
 (* ====================================================================== file blobs *)
-Theorem C08_blob_roundtrip : forall b, b <> [] -> blob_store (FBytes b) = Ok b /\ blob_fetch false b = Some b.
-Proof. exact blob_roundtrip. Qed.
+(* The FilenameData node is modelled as what it is on file: a group with the Type link, a dataset "Data" holding the file
+   name and a dataset called like the file holding the blob; the writer's create / delete-if-present / create sequence and
+   the reader's two look-ups are transcribed (Model/JsonMeta.v, node_write / node_read).  For every name other than the two
+   member names the node already uses, and whatever the node held before, the name and the blob come back: *)
+Theorem C08_blob_roundtrip : forall n name b,
+  nget k_Type n = Some MType -> name <> k_Data -> name <> k_Type ->
+  node_read (node_write n name b) = Ok (Some (name, b)).
+Proof. exact node_roundtrip. Qed.
 Print Assumptions C08_blob_roundtrip.
 
-(* REFUTED (open finding file-named-Data): a file called "Data" replaces the dataset holding its name *)
-Theorem C08_blob_named_Data_refuted : ~ blob_full.
-Proof. exact blob_full_refuted. Qed.
+(* REFUTED in general (open findings file-named-Data, file-named-Type): consequences of the same model *)
+Theorem C08_blob_named_Data_refuted : ~ node_full.
+Proof. exact node_full_refuted. Qed.
 Print Assumptions C08_blob_named_Data_refuted.
+
+Theorem C08_blob_reserved_names : forall b,
+  node_read (node_write node0 k_Data b) = Ok None                 (* file name and content read None *)
+  /\ node_read (node_write node0 k_Type b) = Err TypeErr.          (* the Type link is replaced: the file no longer opens *)
+Proof. intros b. split; reflexivity. Qed.
+Print Assumptions C08_blob_reserved_names.
+
+Theorem C08_blob_refusals : blob_store FNotBytes = Err ValueErr /\ blob_store (FBytes []) = Err ValueErr.
+Proof. exact blob_rejections. Qed.
+Print Assumptions C08_blob_refusals.
+
+Example C08_blob_nonvacuous :
+  node_read (node_write (node_write node0 [102; 46; 100]%N [1; 0; 255]%N) [102; 46; 100]%N [7]%N) = Ok (Some ([102; 46; 100]%N, [7]%N)).
+Proof. reflexivity. Qed.
+
+(* ====================================================================== metadata and comments (JSON-carried values) *)
+(* the text as_str_if_uuid writes for an identifier is read back as that identifier, for every identifier *)
+Theorem C08_uuid_text_roundtrip : forall u, (u < 2 ^ 128)%N -> parse_uuid (uuid_braced u) = Some u.
+Proof. exact parse_uuid_braced. Qed.
+Print Assumptions C08_uuid_text_roundtrip.
+
+(* every metadata dictionary (any nesting of dicts, lists, None, bool, int, float, str with str keys) comes back equal when
+   (meta_ok) identifiers sit directly in the dictionary or in a dictionary directly below, and no string / integer in those
+   slots is a uuid look-alike; the JSON text layer itself (json.dumps / json.loads) is trusted *)
+Theorem C08_meta_roundtrip : forall m, meta_ok m = true -> meta_trip m = Ok m.
+Proof. exact meta_roundtrip. Qed.
+Print Assumptions C08_meta_roundtrip.
+
+(* exactly which strings and integers do not survive in a mapped slot: those uuid.UUID(str(v)) accepts *)
+Theorem C08_meta_lookalikes : forall k k2 s z,
+  (meta_trip (JDict [(k, JStr s)]) = Ok (JDict [(k, JStr s)]) <-> parse_uuid s = None)
+  /\ (meta_trip (JDict [(k, JInt z)]) = Ok (JDict [(k, JInt z)]) <-> parse_uuid (dec_Z z) = None)
+  /\ (meta_trip (JDict [(k, JDict [(k2, JStr s)])]) = Ok (JDict [(k, JDict [(k2, JStr s)])]) <-> parse_uuid s = None).
+Proof.
+  intros k k2 s z. split; [apply meta_string_roundtrip_iff | split; [apply meta_int_roundtrip_iff | apply meta_nested_string_roundtrip_iff]].
+Qed.
+Print Assumptions C08_meta_lookalikes.
+
+(* REFUTED at full strength (open findings metadata-uuid-lookalike, metadata-uuid-not-restored): an identifier two
+   dictionaries down, or inside a list, is written as text and never mapped back *)
+Theorem C08_meta_full_refuted : ~ meta_full.
+Proof. exact meta_full_refuted. Qed.
+Print Assumptions C08_meta_full_refuted.
+
+Theorem C08_meta_unmapped_positions : forall k1 k2 k3 u,
+  meta_trip (JDict [(k1, JDict [(k2, JDict [(k3, JUuid u)])])]) = Ok (JDict [(k1, JDict [(k2, JDict [(k3, JStr (uuid_braced u))])])])
+  /\ meta_trip (JDict [(k1, JList [JUuid u])]) = Ok (JDict [(k1, JList [JStr (uuid_braced u)])]).
+Proof. intros. split; reflexivity. Qed.
+Print Assumptions C08_meta_unmapped_positions.
+
+Theorem C08_meta_refusals :
+  (forall m, (forall d, m <> JDict d) -> meta_trip m = Err TypeErr)
+  /\ (forall d, plain (dmap (JDict d)) = false -> meta_trip (JDict d) = Err TypeErr)
+  /\ (forall k u, meta_trip (JDict [(k, JList [JList [JUuid u]])]) = Err TypeErr)
+  /\ (forall k, meta_trip (JDict [(k, JBad)]) = Err TypeErr).
+Proof. exact meta_refusals. Qed.
+Print Assumptions C08_meta_refusals.
+
+Example C08_meta_nonvacuous :
+  let m := JDict [([97]%N, JUuid 5); ([98]%N, JDict [([99]%N, JUuid (2 ^ 128 - 1)); ([100]%N, JList []); ([101]%N, JDict [])]);
+                  ([102]%N, JNull); ([103]%N, JList [JStr [48; 48]%N; JInt (2 ^ 70)]); ([104]%N, JStr [233; 128512]%N)] in
+  meta_ok m = true /\ meta_trip m = Ok m.
+Proof. split; vm_compute; reflexivity. Qed.
+
+(* comments: every list of {Author, Date, Text} records of strings (uuid look-alikes included: nothing is mapped) *)
+Theorem C08_comments_roundtrip : forall l, Forall is_record l -> comments_trip l = Ok l.
+Proof. exact comments_roundtrip. Qed.
+Print Assumptions C08_comments_roundtrip.
+
+Theorem C08_comments_refusals :
+  (forall l r, In r l -> keys_ok r = false -> comments_trip l = Err AssertErr)
+  /\ (forall a d u, comments_trip [JDict [(k_Author, JStr a); (k_Date, JStr d); (k_Text, JUuid u)]] = Err TypeErr).
+Proof. exact comments_refusals. Qed.
+Print Assumptions C08_comments_refusals.
 
 (* ====================================================================== reference value maps *)
 (* key 0 is "Unknown" (or the map is the boolean map) after the constructor and after every sequence of assignments,
@@ -325,3 +405,18 @@ Example C08_refmap_nonvacuous :
     = MODone m [Some ValueErr; None; Some KeyErr] rows m
     /\ lookup 3 m = Some s_big /\ lookup 0 m = Some s_Unknown.
 Proof. do 2 eexists. split; [vm_compute; reflexivity|]. split; reflexivity. Qed.
+
+(* referenced values and the map are independent: a value without a key is stored and returned as it is (not 0, not the
+   no-data code), no label is made up and no key is added *)
+Theorem C08_ref_values_outside_map : forall d ops m0 bs a n l,
+  dict_keys_nodup d -> mk Repaired d = Ok m0 ->
+  let m := fst (apply_ops Repaired m0 ops) in
+  enc_all utf8_enc (map snd m) = Ok bs ->
+  Forall in_int32 l -> len_ok a n (length l) -> (1 <= n)%nat ->
+  let l' := padded l n INTEGER_NDV in
+  run_ref Repaired d ops a n (AInt I32 l)
+  = (MODone m (snd (apply_ops Repaired m0 ops)) (combine (map fst m) bs) m, ODone (VI l') (RI32 l') (VI l'))
+  /\ (forall z, In z l -> In z l')
+  /\ (forall z, lookup z m = None -> ~ In z (map fst m)).
+Proof. exact ref_values_outside_map. Qed.
+Print Assumptions C08_ref_values_outside_map.
